@@ -935,7 +935,7 @@ Proof.
   pose proof (pow2_pos 60) as Hpos.
   destruct (N.leb_spec (2 ^ 60) mant) as [Hle|Hlt].
   - assert (mant / 2 ^ 60 = 1).
-    { apply (N.div_unique mant (2 ^ 60) 1 (mant - 2 ^ 60)); lia. }
+    { symmetry. apply (N.div_unique mant (2 ^ 60) 1 (mant - 2 ^ 60)); lia. }
     rewrite H0. reflexivity.
   - rewrite N.div_small by exact Hlt. reflexivity.
 Qed.
@@ -1001,5 +1001,885 @@ Proof.
         cbn [of_digits_from length]. rewrite digit_val_digit_char by lia.
         replace (d <? 16) with true by (symmetry; apply N.ltb_lt; exact Hd).
         rewrite Hv1. rewrite Nat2N.inj_succ, N.pow_succ_r'. split; [f_equal; lia|].
-        rewrite N.mul_add_distr_r, Hv2. rewrite Et at 2. rewrite E64, E16. lia.
+        rewrite N.mul_add_distr_r, Hv2. clearbody d t'. rewrite E64, E16. subst t. ring.
 Qed.
+
+Lemma has_prefix_app q : forall y z, (length q <= length y)%nat -> has_prefix q (y ++ z) = has_prefix q y.
+Proof.
+  induction q as [|x q IH]; intros y z H; [reflexivity|].
+  destruct y as [|c y]; [cbn [length] in H; lia|]. cbn [app has_prefix].
+  rewrite IH by (cbn [length] in H; lia). reflexivity.
+Qed.
+
+Lemma has_suffix_app p a x : (length p <= length x)%nat -> has_suffix p (a ++ x) = has_suffix p x.
+Proof.
+  intro H. unfold has_suffix. rewrite rev_app_distr. apply has_prefix_app. rewrite !rev_length. exact H.
+Qed.
+
+Lemma firstn_app_drop {A} (a x : list A) : firstn (length (a ++ x) - length x) (a ++ x) = a.
+Proof.
+  rewrite app_length. replace (length a + length x - length x)%nat with (length a) by lia.
+  rewrite firstn_app. rewrite firstn_all. replace (length a - length a)%nat with 0%nat by lia.
+  cbn [firstn]. apply app_nil_r.
+Qed.
+
+(* the exponent part of fmt_x and what WriteFloatHexNoPrefix makes of it *)
+Definition exp_part (en : Z) : bytes :=
+  [112] ++ (if (en <? 0)%Z then [ch_minus] else [ch_plus]) ++ fmtx_exp_digits (Z.abs_N en).
+
+Definition exp_opt (en : Z) : option (bool * bytes) :=
+  if (en =? 0)%Z then None else Some ((en <? 0)%Z, fmtx_exp_digits (Z.abs_N en)).
+
+Lemma exp_part_suffix en : (Z.abs en < 10000)%Z ->
+  (4 <= length (exp_part en))%nat /\
+  has_suffix t_p00 (exp_part en) = (en =? 0)%Z /\
+  (en = 0%Z -> exp_part en = t_p00).
+Proof.
+  intro Hen. unfold exp_part. set (e := Z.abs_N en). assert (He : e < 10000) by lia.
+  assert (Hsg : forall sg, sg = ch_minus \/ sg = ch_plus -> True) by trivial.
+  split; [|split].
+  - unfold fmtx_exp_digits. destruct (e <? 100); [|destruct (e <? 1000)]; destruct (en <? 0)%Z; cbn; lia.
+  - destruct (Z.eqb_spec en 0) as [E0|N0].
+    + subst en. reflexivity.
+    + assert (He0 : e <> 0) by lia.
+      unfold fmtx_exp_digits, has_suffix, t_p00.
+      destruct (N.ltb_spec e 100) as [H1|H1]; [|destruct (N.ltb_spec e 1000) as [H2|H2]];
+        destruct (en <? 0)%Z; cbn [app rev has_prefix ch_minus ch_plus].
+      all: try (rewrite (neqb_of 43 (48 + _)) by lia; cbn [andb]; rewrite ?andb_false_r; reflexivity).
+      all: try (rewrite (neqb_of 112 (48 + _)) by dlia; cbn [andb]; rewrite ?andb_false_r; reflexivity).
+      all: try (change (43 =? 45) with false; cbn [andb]; rewrite ?andb_false_r; reflexivity).
+      all: destruct (N.eqb_spec 48 (48 + e mod 10)) as [Ea|Na]; [|reflexivity];
+           destruct (N.eqb_spec 48 (48 + e / 10)) as [Eb|Nb]; [|reflexivity]; exfalso; dlia.
+  - intros ->. reflexivity.
+Qed.
+
+Lemma exp_opt_value en : (Z.abs en < 10000)%Z ->
+  exp_value (exp_opt en) = en /\
+  (forall eneg ed, exp_opt en = Some (eneg, ed) -> Forall (fun c => is_dec c = true) ed /\ ed <> []).
+Proof.
+  intro Hen. unfold exp_opt. destruct (Z.eqb_spec en 0) as [E0|N0].
+  - split; [cbn; lia|discriminate].
+  - destruct (fmtx_exp_digits_spec (Z.abs_N en)) as (Hd & Hne & Hacc); [lia|].
+    split.
+    + unfold exp_value. rewrite strip_us_plain.
+      * rewrite Hacc. destruct (Z.ltb_spec en 0); lia.
+      * eapply Forall_impl; [|exact Hd]. intros c Hc. unfold is_dec in Hc. apply andb_true_iff in Hc as [H1 H2].
+        apply N.leb_le in H1, H2. unfold plain_char. lia.
+    + intros eneg ed [= <- <-]. split; assumption.
+Qed.
+
+Lemma strip_prefix_shape (neg : bool) b0 B :
+  let used := (if neg then [ch_minus] else []) ++ 48 :: 120 :: b0 :: B in
+  match used with
+  | c0 :: _ :: _ :: r => if c0 =? ch_minus then ch_minus :: r else skipn 2 used
+  | _ => skipn 2 used
+  end = (if neg then [ch_minus] else []) ++ b0 :: B.
+Proof. destruct neg; reflexivity. Qed.
+
+(* the strconv-'x' branch of WriteFloatHexNoPrefix *)
+Definition hex_frac_text (b : N) : bytes :=
+  let used := fmt_x b in
+  let used := if has_suffix t_p00 used then firstn (length used - 4) used else used in
+  match used with
+  | c0 :: _ :: _ :: r => if c0 =? ch_minus then ch_minus :: r else skipn 2 used
+  | _ => skipn 2 used
+  end.
+
+Lemma f64_fields_lt b : f64_expo b < 2048 /\ f64_mant b < p2_52.
+Proof. unfold f64_expo, f64_mant, p2_52. split; apply N.mod_lt; discriminate. Qed.
+
+(* mantissa/exponent view of a finite non-zero float64 *)
+Lemma f64_parts_mag b :
+  f64_expo b <> 2047 -> (f64_expo b <> 0 \/ f64_mant b <> 0) ->
+  exists mant0 exp0,
+    f64_parts b = (mant0, exp0) /\ mant0 <> 0 /\ mant0 < 2 ^ 53 /\ (-1022 <= exp0 <= 1023)%Z /\
+    f64_mag b = Some (mant0 * 2 ^ Z.to_N (exp0 + 1022)).
+Proof.
+  intros Hfin Hnz. destruct (f64_fields_lt b) as [He Hm]. unfold f64_parts, f64_mag.
+  assert (E53 : 2 ^ 53 = 2 * p2_52) by reflexivity.
+  replace (f64_expo b =? 2047) with false by (symmetry; apply N.eqb_neq; exact Hfin).
+  destruct (N.eqb_spec (f64_expo b) 0) as [E0|N0].
+  - exists (f64_mant b), (-1022)%Z. repeat split; try lia.
+    change (Z.to_N (-1022 + 1022)) with 0. rewrite N.pow_0_r, N.mul_1_r. reflexivity.
+  - exists (f64_mant b + p2_52), (Z.of_N (f64_expo b) - 1023)%Z.
+    assert (Hp : p2_52 = 4503599627370496) by reflexivity.
+    repeat split; try lia.
+    replace (Z.to_N (Z.of_N (f64_expo b) - 1023 + 1022)) with (f64_expo b - 1) by lia.
+    rewrite (N.add_comm (f64_mant b)). reflexivity.
+Qed.
+
+Lemma hex_frac_text_spec b mag :
+  f64_expo b <> 2047 -> (f64_expo b <> 0 \/ f64_mant b <> 0) -> f64_mag b = Some mag ->
+  exists ds en M a c,
+    hex_frac_text b = hex_text (f64_sign b =? 1) [49] ds (exp_opt en) /\
+    Forall hexd ds /\ (Z.abs en < 10000)%Z /\
+    of_digits 16 ([49] ++ ds) = Some M /\
+    M * 2 ^ a = mag * 2 ^ c /\
+    (en - 4 * Z.of_nat (length ds) - Z.of_N a = -1074 - Z.of_N c)%Z.
+Proof.
+  intros Hfin Hnz Hmag.
+  destruct (f64_parts_mag b Hfin Hnz) as (mant0 & exp0 & Eparts & Hm0 & Hm53 & Hexp0 & Emag).
+  rewrite Emag in Hmag. injection Hmag as Hmag. subst mag.
+  assert (E61 : 2 ^ 61 = 2 ^ 53 * 2 ^ 8) by reflexivity.
+  assert (E61' : 2 ^ 61 = 2 * 2 ^ 60) by reflexivity.
+  assert (E64 : 2 ^ 64 = 16 * 2 ^ 60) by reflexivity.
+  pose proof (pow2_pos 60) as Hp60.
+  destruct (fmtx_norm_spec 64 (mant0 * 2 ^ 8) exp0) as (s & Enorm & Hn1 & Hn2).
+  { pose proof (pow2_pos 8). lia. }
+  { rewrite E61. apply N.mul_lt_mono_pos_r; [apply pow2_pos|exact Hm53]. }
+  { change (N.of_nat 64) with 64. rewrite <- N.mul_assoc, <- N.pow_add_r. change (8 + 64) with (60 + 12).
+    rewrite N.pow_add_r. pose proof (pow2_pos 12). nia. }
+  set (mn := mant0 * 2 ^ 8 * 2 ^ s) in *. set (en := (exp0 - Z.of_N s)%Z) in *.
+  assert (Hs : s < 53).
+  { destruct (N.lt_ge_cases s 53) as [H|H]; [exact H|exfalso].
+    assert (2 ^ 53 <= 2 ^ s) by (apply N.pow_le_mono_r; lia).
+    assert (2 ^ 8 * 2 ^ 53 <= mn) by (subst mn; pose proof (pow2_pos 8); nia).
+    change (2 ^ 8 * 2 ^ 53) with (2 ^ 61) in H1. lia. }
+  assert (Hlead : (mn / 2 ^ 60) mod 2 = 1).
+  { replace (mn / 2 ^ 60) with 1; [reflexivity|]. apply (N.div_unique mn (2 ^ 60) 1 (mn - 2 ^ 60)); lia. }
+  set (fr := (mn * 16) mod 2 ^ 64).
+  assert (Efr : fr = (mn - 2 ^ 60) * 16).
+  { subst fr. symmetry. apply (N.mod_unique (mn * 16) (2 ^ 64) 1); lia. }
+  destruct (fmtx_frac_spec 16 0 fr 1) as (Hds & v & Hv1 & Hv2).
+  { reflexivity. }
+  { change (4 * N.of_nat 16) with 64. subst fr. apply N.mod_lt. discriminate. }
+  rewrite N.pow_0_r, N.mul_1_r in Hds, Hv1, Hv2.
+  set (ds := fmtx_frac 16 fr) in *. set (k := N.of_nat (length ds)) in *.
+  exists ds, en, (16 ^ k + v), (64 + Z.to_N (exp0 + 1022)), (4 * k + 12 + s).
+  assert (Hen : (Z.abs en < 10000)%Z) by lia.
+  split; [|split; [exact Hds|split; [exact Hen|split; [|split]]]].
+  - (* shape of the text *)
+    unfold hex_frac_text, fmt_x. rewrite Eparts.
+    replace (mant0 =? 0) with false by (symmetry; apply N.eqb_neq; exact Hm0).
+    rewrite Enorm. fold mn. fold fr. rewrite Hlead. change (48 + 1) with 49.
+    fold (exp_part en).
+    assert (EFP : (if fr =? 0 then [] else ch_dot :: fmtx_frac 16 fr) = match ds with [] => [] | _ => ch_dot :: ds end).
+    { fold ds. destruct (N.eqb_spec fr 0) as [E0|N0].
+      - subst ds. rewrite E0. reflexivity.
+      - subst ds. cbn [fmtx_frac]. replace (fr =? 0) with false by (symmetry; apply N.eqb_neq; exact N0). reflexivity. }
+    rewrite EFP. set (FP := match ds with [] => [] | _ => ch_dot :: ds end).
+    set (S := if f64_sign b =? 1 then [ch_minus] else []).
+    replace (S ++ [48; 120; 49] ++ FP ++ exp_part en) with ((S ++ [48; 120; 49] ++ FP) ++ exp_part en)
+      by (rewrite <- !app_assoc; reflexivity).
+    destruct (exp_part_suffix en Hen) as (Hlen & Hsuf & Hzero).
+    rewrite has_suffix_app by exact Hlen. rewrite Hsuf.
+    unfold hex_text, exp_opt. fold S. fold FP.
+    destruct (Z.eqb_spec en 0) as [E0|N0].
+    + rewrite (Hzero E0). change 4%nat with (length t_p00). rewrite firstn_app_drop.
+      subst S. destruct (f64_sign b =? 1); cbn [app]; rewrite ?app_nil_r; reflexivity.
+    + subst S. unfold exp_part. destruct (f64_sign b =? 1); destruct (en <? 0)%Z; cbn [app];
+        rewrite <- ?app_assoc; reflexivity.
+  - (* digits *)
+    unfold of_digits. cbn [app of_digits_from]. change (digit_val 49) with (Some 1). cbv beta iota.
+    change (1 <? 16) with true. cbv iota. change (0 * 16 + 1) with 1. rewrite Hv1. f_equal. fold k. lia.
+  - (* value *)
+    rewrite N.pow_add_r. rewrite N.mul_assoc. rewrite N.mul_add_distr_r. fold k in Hv2. rewrite Hv2.
+    rewrite Efr.
+    replace (16 ^ k * 2 ^ 64 + (mn - 2 ^ 60) * 16 * 16 ^ k) with (16 ^ k * (16 * mn)) by (rewrite E64; nia).
+    subst mn. rewrite !N.pow_add_r. replace (2 ^ (4 * k)) with (16 ^ k) by (change 16 with (2 ^ 4); rewrite <- N.pow_mul_r; reflexivity).
+    change (2 ^ 12) with (16 * 2 ^ 8). ring.
+  - subst en k. lia.
+Qed.
+
+(* the integer branch of WriteFloatHexNoPrefix *)
+Lemma hex_int_text_spec b z mag :
+  b < 2 ^ 64 -> f64_expo b <> 2047 -> (f64_expo b <> 0 \/ f64_mant b <> 0) ->
+  f64_mag b = Some mag -> f64_as_int b = Some z ->
+  exists M, write_int_hex z = hex_text (f64_sign b =? 1) (to_digits 16 M) [] None /\
+            M * 2 ^ 1074 = mag.
+Proof.
+  intros Hb Hfin Hnz Hmag Hint.
+  destruct (f64_parts_mag b Hfin Hnz) as (mant0 & exp0 & Eparts & Hm0 & Hm53 & Hexp0 & Emag).
+  rewrite Emag in Hmag. injection Hmag as Hmag. subst mag.
+  destruct (f64_decompose b Hb) as (Hs & _ & _ & _).
+  unfold f64_as_int in Hint. rewrite Eparts in Hint.
+  set (sh := (exp0 - 52)%Z) in *.
+  assert (Ha : exists a, (if (0 <=? sh)%Z then Some (mant0 * 2 ^ Z.to_N sh)
+                          else if mant0 mod 2 ^ Z.to_N (- sh) =? 0 then Some (mant0 / 2 ^ Z.to_N (- sh)) else None) = Some a
+                         /\ a <> 0 /\ a * 2 ^ 1074 = mant0 * 2 ^ Z.to_N (exp0 + 1022)).
+  { destruct (Z.leb_spec 0 sh) as [Hsh|Hsh].
+    - exists (mant0 * 2 ^ Z.to_N sh). split; [reflexivity|]. split.
+      + pose proof (pow2_pos (Z.to_N sh)). nia.
+      + rewrite <- N.mul_assoc, <- N.pow_add_r. f_equal. f_equal. lia.
+    - set (d := 2 ^ Z.to_N (- sh)) in *. assert (Hd : 0 < d) by apply pow2_pos.
+      destruct (N.eqb_spec (mant0 mod d) 0) as [Emod|Nmod].
+      + exists (mant0 / d). split; [reflexivity|].
+        assert (Ediv : mant0 = d * (mant0 / d)) by (rewrite (N.div_mod mant0 d) at 1 by lia; lia).
+        split; [intro E0; rewrite E0 in Ediv; lia|].
+        rewrite Ediv at 2. subst d.
+        replace (2 ^ 1074) with (2 ^ Z.to_N (- sh) * 2 ^ Z.to_N (exp0 + 1022)); [ring|].
+        rewrite <- N.pow_add_r. f_equal. lia.
+      + destruct (0 <=? sh)%Z; discriminate. }
+  destruct Ha as (a & Ea & Ha0 & Hval).
+  cbv zeta in Hint. rewrite Ea in Hint.
+  exists a. split; [|exact Hval].
+  unfold write_int_hex, hex_text. rewrite !app_nil_r.
+  destruct (N.eqb_spec (f64_sign b) 1) as [E1|N1].
+  - destruct ((- 2 ^ 63 <=? - Z.of_N a) && (- Z.of_N a <? 2 ^ 63))%Z eqn:Er; [|discriminate].
+    injection Hint as <-. apply andb_true_iff in Er as [Hr1 Hr2]. apply Z.leb_le in Hr1.
+    replace (0 <=? - Z.of_N a)%Z with false by (symmetry; apply Z.leb_gt; lia).
+    replace (Z.to_N (- - Z.of_N a)) with a by lia.
+    assert (Hr1' : (Z.of_N a <= 2 ^ 63)%Z) by lia.
+    rewrite N.mod_small; [reflexivity|].
+    apply N2Z.inj_lt. change (Z.of_N (2 ^ 64)) with (2 ^ 64)%Z.
+    assert ((2 ^ 63 < 2 ^ 64)%Z) by reflexivity. lia.
+  - destruct ((- 2 ^ 63 <=? Z.of_N a) && (Z.of_N a <? 2 ^ 63))%Z eqn:Er; [|discriminate].
+    injection Hint as <-.
+    replace (0 <=? Z.of_N a)%Z with true by (symmetry; apply Z.leb_le; lia).
+    rewrite N2Z.id. reflexivity.
+Qed.
+
+Lemma run_ok_hex_text neg ip fp eo :
+  Forall hexd ip -> ip <> [] -> Forall hexd fp ->
+  (forall eneg ed, eo = Some (eneg, ed) -> Forall (fun c => is_dec c = true) ed /\ ed <> []) ->
+  run_ok (hex_text neg ip fp eo).
+Proof.
+  intros Hip Hne Hfp Heo. unfold hex_text. split.
+  - destruct neg; [discriminate|]. destruct ip; [congruence|discriminate].
+  - assert (Hh : forall l, Forall hexd l -> forallb is_run_char l = true).
+    { intros l Hl. apply Forall_forallb. eapply Forall_impl; [|exact Hl]. intros c Hc. apply plain_run_char, hexd_plain, Hc. }
+    rewrite !forallb_app. rewrite (Hh ip Hip).
+    replace (forallb is_run_char (if neg then [ch_minus] else [])) with true by (destruct neg; reflexivity).
+    replace (forallb is_run_char match fp with [] => [] | _ :: _ => ch_dot :: fp end) with true
+      by (destruct fp; [reflexivity|]; cbn [forallb]; rewrite <- (Hh _ Hfp); reflexivity).
+    cbn [andb]. destruct eo as [[eneg ed]|]; [|reflexivity].
+    destruct (Heo eneg ed eq_refl) as [Hed _]. cbn [forallb].
+    replace (forallb is_run_char ed) with true.
+    + destruct eneg; reflexivity.
+    + symmetry. apply Forall_forallb. eapply Forall_impl; [|exact Hed]. intros c Hc. apply plain_run_char.
+      unfold is_dec in Hc. apply andb_true_iff in Hc as [H1 H2]. apply N.leb_le in H1, H2. unfold plain_char. lia.
+Qed.
+
+Section HexFloat.
+  Variable parse_dec : N -> bytes -> option N.
+
+  (* a finite non-zero float64 [b] whose value is the magnitude pattern (ef, mf)
+     of the element format of kind k *)
+  Lemma hex_finite_roundtrip k b x ef mf cshift :
+    kind_class k = CFloat -> b < 2 ^ 64 ->
+    f64_expo b <> 2047 -> (f64_expo b <> 0 \/ f64_mant b <> 0) ->
+    let F := float_ffmt k in
+    mf < 2 ^ (ff_p F - 1) -> ef < 2 ^ ff_expbits F - 1 -> (ef <> 0 \/ mf <> 0) ->
+    f64_mag b = Some ((if ef =? 0 then mf else (2 ^ (ff_p F - 1) + mf) * 2 ^ (ef - 1)) * 2 ^ cshift) ->
+    (ff_qmin F - Z.of_N cshift = -1074)%Z ->
+    (forall zt, finish_float k (f64_sign b =? 1) zt (Some (ef * 2 ^ (ff_p F - 1) + mf)) = Some x) ->
+    let t := write_float_hex_noprefix b in
+    read_elem parse_dec k MHex t = Some x /\ run_ok t.
+  Proof.
+    intros Hk Hb Hfin Hnz F Hmf Hef Hnzf Hmag Hq Hfinish t. subst t.
+    assert (Hp : 1 <= ff_p F) by (subst F; destruct k; cbn; lia).
+    unfold write_float_hex_noprefix.
+    assert (Hspec : write_special b = None).
+    { unfold write_special, f64_is_nan, f64_is_inf.
+      replace (f64_expo b =? 2047) with false by (symmetry; apply N.eqb_neq; exact Hfin). reflexivity. }
+    rewrite Hspec.
+    assert (Hz : f64_is_zero b = false).
+    { unfold f64_is_zero. destruct Hnz as [H|H]; [rewrite (neqb_of _ _ H); reflexivity|].
+      rewrite (neqb_of _ _ H). apply andb_false_r. }
+    rewrite Hz.
+    set (magF := if ef =? 0 then mf else (2 ^ (ff_p F - 1) + mf) * 2 ^ (ef - 1)) in *.
+    destruct (f64_as_int b) as [z|] eqn:Eint.
+    - destruct (hex_int_text_spec b z _ Hb Hfin Hnz Hmag Eint) as (M & Etext & Hval).
+      rewrite Etext.
+      assert (Hip : Forall hexd (to_digits 16 M)) by (apply to_digits_chars; lia).
+      assert (Hne : to_digits 16 M <> []) by apply to_digits_nonempty.
+      assert (Heo : forall eneg ed, @None (bool * bytes) = Some (eneg, ed) -> Forall (fun c => is_dec c = true) ed /\ ed <> []) by discriminate.
+      split; [|apply run_ok_hex_text; try assumption; constructor].
+      rewrite (read_hex_text parse_dec k _ _ [] None M Hk Hip Hne (Forall_nil _) Heo).
+      + fold F. cbn [length exp_value]. change (0 - 4 * Z.of_nat 0)%Z with 0%Z.
+        rewrite (round_assemble_exact F ef mf M 0 1074 cshift Hp Hmf Hef Hnzf).
+        * apply Hfinish.
+        * fold magF. exact Hval.
+        * lia.
+      + rewrite app_nil_r. apply of_digits_to_digits; lia.
+    - fold (hex_frac_text b).
+      destruct (hex_frac_text_spec b _ Hfin Hnz Hmag) as (ds & en & M & a & c & Etext & Hds & Hen & HM & Hval & Hexp).
+      rewrite Etext.
+      destruct (exp_opt_value en Hen) as [Hev Heo].
+      assert (Hip : Forall hexd [49]) by (repeat constructor).
+      assert (Hne : [49] <> []) by discriminate.
+      split; [|apply run_ok_hex_text; assumption].
+      rewrite (read_hex_text parse_dec k _ [49] ds (exp_opt en) M Hk Hip Hne Hds Heo HM).
+      fold F. rewrite Hev.
+      rewrite (round_assemble_exact F ef mf M _ a (cshift + c) Hp Hmf Hef Hnzf).
+      + apply Hfinish.
+      + fold magF. rewrite Hval. rewrite N.pow_add_r. ring.
+      + lia.
+  Qed.
+End HexFloat.
+
+(* ------------------------------------------------------------------ *)
+(** * Float elements, hexadecimal and special spellings *)
+
+Lemma f64_class b : b < 2 ^ 64 ->
+  (f64_is_nan b = true /\ f64_expo b = 2047 /\ f64_mant b <> 0) \/
+  (f64_is_inf b = true /\ f64_is_nan b = false /\ f64_expo b = 2047 /\ f64_mant b = 0) \/
+  (f64_is_zero b = true /\ f64_is_nan b = false /\ f64_is_inf b = false /\ f64_expo b = 0 /\ f64_mant b = 0) \/
+  (f64_is_nan b = false /\ f64_is_inf b = false /\ f64_is_zero b = false /\
+   f64_expo b <> 2047 /\ (f64_expo b <> 0 \/ f64_mant b <> 0)).
+Proof.
+  intros _. unfold f64_is_nan, f64_is_inf, f64_is_zero.
+  destruct (N.eqb_spec (f64_expo b) 2047) as [E1|N1]; destruct (N.eqb_spec (f64_mant b) 0) as [E2|N2];
+    destruct (N.eqb_spec (f64_expo b) 0) as [E3|N3]; cbn [andb negb]; try lia;
+    try (left; repeat split; assumption);
+    try (right; left; repeat split; assumption);
+    try (right; right; left; repeat split; assumption);
+    right; right; right; repeat split; try assumption; tauto.
+Qed.
+
+Lemma f32_class w : w < 2 ^ 32 ->
+  (f32_is_nan w = true) \/
+  (f32_is_inf w = true /\ f32_is_nan w = false /\ f32_expo w = 255 /\ f32_mant w = 0) \/
+  (f32_is_zero w = true /\ f32_is_nan w = false /\ f32_is_inf w = false /\ f32_expo w = 0 /\ f32_mant w = 0) \/
+  (f32_is_nan w = false /\ f32_is_inf w = false /\ f32_is_zero w = false /\
+   f32_expo w <> 255 /\ (f32_expo w <> 0 \/ f32_mant w <> 0)).
+Proof.
+  intros _. unfold f32_is_nan, f32_is_inf, f32_is_zero.
+  destruct (N.eqb_spec (f32_expo w) 255) as [E1|N1]; destruct (N.eqb_spec (f32_mant w) 0) as [E2|N2];
+    destruct (N.eqb_spec (f32_expo w) 0) as [E3|N3]; cbn [andb negb]; try lia;
+    try (left; reflexivity);
+    try (right; left; repeat split; assumption);
+    try (right; right; left; repeat split; assumption);
+    right; right; right; repeat split; try assumption; tauto.
+Qed.
+
+Lemma run_ok_const t : t <> [] -> forallb is_run_char t = true -> run_ok t.
+Proof. intros; split; assumption. Qed.
+
+Section FloatHex.
+  Variable parse_dec : N -> bytes -> option N.
+
+  (* special spellings are read in both float modes *)
+  Lemma read_specials k m : kind_class k = CFloat -> m = MDec \/ m = MHex ->
+    read_elem parse_dec k m t_nan = Some (special_bits k 0) /\
+    read_elem parse_dec k m t_snan = Some (special_bits k 1) /\
+    read_elem parse_dec k m t_inf = Some (special_bits k 2) /\
+    read_elem parse_dec k m t_ninf = Some (special_bits k 3).
+  Proof. intros Hk [-> | ->]; destruct k; try discriminate; repeat split; reflexivity. Qed.
+
+  Lemma read_zero_texts k m : kind_class k = CFloat -> m = MHex ->
+    read_elem parse_dec k m [48] = Some 0 /\
+    read_elem parse_dec k m [ch_minus; 48] = Some (2 ^ (kind_bits k - 1)).
+  Proof. intros Hk ->; destruct k; try discriminate; split; vm_compute; reflexivity. Qed.
+
+  (* float64 *)
+  Lemma f64_hex_elem x : x < 2 ^ 64 ->
+    let t := write_float_hex_noprefix x in
+    read_elem parse_dec KF64 MHex t = Some (canon_elem KF64 x) /\ run_ok t.
+  Proof.
+    intros Hx t. subst t.
+    destruct (f64_decompose x Hx) as (Hs & He & Hm & Ex).
+    destruct (read_specials KF64 MHex eq_refl (or_intror eq_refl)) as (R0 & R1 & R2 & R3).
+    destruct (f64_class x Hx) as [(Hn & _ & _)|[(Hi & Hn & E1 & E2)|[(Hz & Hn & Hi & E1 & E2)|(Hn & Hi & Hz & Hfin & Hnz)]]].
+    - unfold write_float_hex_noprefix, write_special, canon_elem. rewrite Hn.
+      destruct (f64_quiet_bit x); split; try assumption; apply run_ok_const; try discriminate; reflexivity.
+    - unfold write_float_hex_noprefix, write_special, canon_elem. rewrite Hn, Hi.
+      assert (Ex' : x = f64_sign x * p2_63 + 2047 * p2_52) by (rewrite Ex at 1; unfold f64_make; rewrite E1, E2; lia).
+      destruct (N.eqb_spec (f64_sign x) 1) as [S1|S0]; (split; [|apply run_ok_const; [discriminate|reflexivity]]).
+      + rewrite R3. f_equal. rewrite Ex', S1. reflexivity.
+      + rewrite R2. f_equal. rewrite Ex'. replace (f64_sign x) with 0 by lia. reflexivity.
+    - unfold write_float_hex_noprefix, write_special, canon_elem. rewrite Hn, Hi, Hz.
+      assert (Ex' : x = f64_sign x * p2_63) by (rewrite Ex at 1; unfold f64_make; rewrite E1, E2; lia).
+      destruct (read_zero_texts KF64 MHex eq_refl eq_refl) as [Z0 Z1].
+      destruct (N.eqb_spec (f64_sign x) 1) as [S1|S0]; (split; [|apply run_ok_const; [discriminate|reflexivity]]).
+      + rewrite Z1. f_equal. rewrite Ex', S1. reflexivity.
+      + rewrite Z0. f_equal. rewrite Ex'. replace (f64_sign x) with 0 by lia. reflexivity.
+    - unfold canon_elem. rewrite Hn.
+      apply (hex_finite_roundtrip parse_dec KF64 x x (f64_expo x) (f64_mant x) 0 eq_refl Hx Hfin Hnz).
+      + exact Hm.
+      + change (2 ^ ff_expbits (float_ffmt KF64) - 1) with 2047. lia.
+      + exact Hnz.
+      + unfold f64_mag. rewrite (neqb_of _ _ Hfin). rewrite N.pow_0_r, N.mul_1_r.
+        destruct (f64_expo x =? 0); reflexivity.
+      + reflexivity.
+      + intro zt. unfold finish_float. change (2 ^ (ff_p (float_ffmt KF64) - 1)) with p2_52.
+        assert (Hv : f64_expo x * p2_52 + f64_mant x <> 0).
+        { unfold p2_52. destruct Hnz; lia. }
+        rewrite (neqb_of _ _ Hv). cbn [andb]. f_equal.
+        transitivity (f64_make (f64_sign x) (f64_expo x) (f64_mant x)); [|symmetry; exact Ex]. unfold f64_make.
+        destruct (N.eqb_spec (f64_sign x) 1) as [S1|S0]; [rewrite S1|replace (f64_sign x) with 0 by lia]; lia.
+  Qed.
+End FloatHex.
+
+Section FloatHex32.
+  Variable parse_dec : N -> bytes -> option N.
+
+  (* what the widened pattern of a float32 looks like *)
+  Lemma widen_class w : w < 2 ^ 32 -> f32_is_nan w = false ->
+    let b := f32_widen w in
+    b < 2 ^ 64 /\ f64_sign b = f32_sign w /\ f64_is_nan b = false /\
+    f64_is_inf b = f32_is_inf w /\ f64_is_zero b = f32_is_zero w.
+  Proof.
+    intros Hw Hn b. subst b. repeat split.
+    - apply f32_widen_lt; exact Hw.
+    - apply f32_widen_sign; assumption.
+    - rewrite widen_is_nan by exact Hw. exact Hn.
+    - apply widen_is_inf; exact Hw.
+    - apply widen_is_zero; exact Hw.
+  Qed.
+
+  (* float32 and bfloat16 elements: [w] is the float32 pattern the element widens through *)
+  Lemma f32w_hex_elem k w x :
+    kind_class k = CFloat -> float_ffmt k = ff32 -> w < 2 ^ 32 ->
+    (f32_is_nan w = true -> canon_elem k x = if f32_quiet_bit w then special_bits k 0 else special_bits k 1) ->
+    (f32_is_nan w = false -> canon_elem k x = x) ->
+    (f32_is_inf w = true -> x = special_bits k (if f32_sign w =? 1 then 3 else 2)) ->
+    (f32_is_zero w = true -> x = if f32_sign w =? 1 then 2 ^ (kind_bits k - 1) else 0) ->
+    (forall zt, f32_expo w * p2_23 + f32_mant w <> 0 ->
+       finish_float k (f32_sign w =? 1) zt (Some (f32_expo w * p2_23 + f32_mant w)) = Some x) ->
+    let t := write_float_hex_noprefix (f32_widen w) in
+    read_elem parse_dec k MHex t = Some (canon_elem k x) /\ run_ok t.
+  Proof.
+    intros Hk HF Hw Hcn Hcf Hinf Hzero Hfinish t. subst t.
+    destruct (f32_decompose w Hw) as (Hs & He & Hm & Ew).
+    destruct (read_specials parse_dec k MHex Hk (or_intror eq_refl)) as (R0 & R1 & R2 & R3).
+    destruct (f32_class w Hw) as [Hn|Hrest].
+    - (* NaN *)
+      destruct (widen_nan_canonical w Hw Hn) as [_ Hq].
+      unfold write_float_hex_noprefix, write_special. rewrite widen_is_nan by exact Hw. rewrite Hn, Hq, (Hcn Hn).
+      destruct (f32_quiet_bit w); split; try assumption; apply run_ok_const; try discriminate; reflexivity.
+    - assert (Hn : f32_is_nan w = false) by (destruct Hrest as [H|[H|H]]; tauto).
+      destruct (widen_class w Hw Hn) as (Hb & Hsign & Hbn & Hbi & Hbz). cbv zeta in *.
+      rewrite (Hcf Hn).
+      destruct Hrest as [(Hi & _ & E1 & E2)|[(Hz & _ & Hi & E1 & E2)|(_ & Hi & Hz & Hfin & Hnz)]].
+      + unfold write_float_hex_noprefix, write_special. rewrite Hbn, Hbi, Hi, Hsign. pose proof (Hinf Hi) as Ex.
+        destruct (f32_sign w =? 1); (split; [|apply run_ok_const; [discriminate|reflexivity]]).
+        * rewrite R3. f_equal. symmetry. exact Ex.
+        * rewrite R2. f_equal. symmetry. exact Ex.
+      + unfold write_float_hex_noprefix, write_special. rewrite Hbn, Hbi, Hi, Hbz, Hz, Hsign. pose proof (Hzero Hz) as Ex.
+        destruct (read_zero_texts parse_dec k MHex Hk eq_refl) as [Z0 Z1].
+        destruct (f32_sign w =? 1); (split; [|apply run_ok_const; [discriminate|reflexivity]]).
+        * rewrite Z1. f_equal. symmetry. exact Ex.
+        * rewrite Z0. f_equal. symmetry. exact Ex.
+      + set (b := f32_widen w) in *.
+        assert (Hbfin : f64_expo b <> 2047 /\ (f64_expo b <> 0 \/ f64_mant b <> 0)).
+        { destruct (f64_class b Hb) as [(H & _)|[(H & _)|[(H & _)|(_ & _ & _ & H1 & H2)]]]; try congruence. tauto. }
+        destruct Hbfin as [Hbfin Hbnz].
+        assert (Hv : f32_expo w * p2_23 + f32_mant w <> 0) by (unfold p2_23; destruct Hnz; lia).
+        apply (hex_finite_roundtrip parse_dec k b x (f32_expo w) (f32_mant w) 925 Hk Hb Hbfin Hbnz); rewrite ?HF.
+        * exact Hm.
+        * change (2 ^ ff_expbits ff32 - 1) with 255. lia.
+        * exact Hnz.
+        * subst b. rewrite (f32_widen_mag w Hw). unfold f32_mag. rewrite (neqb_of _ _ Hfin).
+          destruct (f32_expo w =? 0); reflexivity.
+        * reflexivity.
+        * intro zt. rewrite Hsign. change (2 ^ (ff_p ff32 - 1)) with p2_23. apply Hfinish. exact Hv.
+  Qed.
+
+  Lemma f32_hex_elem x : x < 2 ^ 32 ->
+    let t := write_float_hex_noprefix (f32_widen x) in
+    read_elem parse_dec KF32 MHex t = Some (canon_elem KF32 x) /\ run_ok t.
+  Proof.
+    intros Hx. destruct (f32_decompose x Hx) as (Hs & He & Hm & Ex).
+    apply (f32w_hex_elem KF32 x x eq_refl eq_refl Hx).
+    - intro Hn. unfold canon_elem. rewrite Hn. reflexivity.
+    - intro Hn. unfold canon_elem. rewrite Hn. reflexivity.
+    - unfold f32_is_inf. intro H. apply andb_true_iff in H as [H1 H2]. apply N.eqb_eq in H1, H2.
+      rewrite Ex at 1. unfold f32_make. rewrite H1, H2.
+      destruct (N.eqb_spec (f32_sign x) 1) as [S1|S0]; [rewrite S1|replace (f32_sign x) with 0 by lia]; reflexivity.
+    - unfold f32_is_zero. intro H. apply andb_true_iff in H as [H1 H2]. apply N.eqb_eq in H1, H2.
+      rewrite Ex at 1. unfold f32_make. rewrite H1, H2.
+      destruct (N.eqb_spec (f32_sign x) 1) as [S1|S0]; [rewrite S1|replace (f32_sign x) with 0 by lia]; reflexivity.
+    - intros zt Hv. unfold finish_float. rewrite (neqb_of _ _ Hv). cbn [andb]. f_equal.
+      transitivity (f32_make (f32_sign x) (f32_expo x) (f32_mant x)); [|symmetry; exact Ex]. unfold f32_make.
+      destruct (N.eqb_spec (f32_sign x) 1) as [S1|S0]; [rewrite S1|replace (f32_sign x) with 0 by lia]; lia.
+  Qed.
+
+  Lemma f16_hex_elem x : x < 2 ^ 16 ->
+    let t := write_float_hex_noprefix (bf16_widen x) in
+    read_elem parse_dec KF16 MHex t = Some (canon_elem KF16 x) /\ run_ok t.
+  Proof.
+    intros Hx. unfold bf16_widen. set (w := x * 65536).
+    assert (Hw : w < 2 ^ 32) by (subst w; change (2 ^ 32) with (65536 * 65536); change (2 ^ 16) with 65536 in Hx; lia).
+    destruct (f32_decompose w Hw) as (Hs & He & Hm & Ew).
+    assert (Exw : x = w / 65536) by (subst w; rewrite N.div_mul; [reflexivity|discriminate]).
+    apply (f32w_hex_elem KF16 w x eq_refl eq_refl Hw).
+    - intro Hn. unfold canon_elem, bf16_is_nan. fold w. rewrite Hn. reflexivity.
+    - intro Hn. unfold canon_elem, bf16_is_nan. fold w. rewrite Hn. reflexivity.
+    - unfold f32_is_inf. intro H. apply andb_true_iff in H as [H1 H2]. apply N.eqb_eq in H1, H2.
+      rewrite Exw. rewrite Ew at 1. unfold f32_make. rewrite H1, H2.
+      destruct (N.eqb_spec (f32_sign w) 1) as [S1|S0]; [rewrite S1|replace (f32_sign w) with 0 by lia]; reflexivity.
+    - unfold f32_is_zero. intro H. apply andb_true_iff in H as [H1 H2]. apply N.eqb_eq in H1, H2.
+      rewrite Exw. rewrite Ew at 1. unfold f32_make. rewrite H1, H2.
+      destruct (N.eqb_spec (f32_sign w) 1) as [S1|S0]; [rewrite S1|replace (f32_sign w) with 0 by lia]; reflexivity.
+    - intros zt Hv. unfold finish_float. rewrite (neqb_of _ _ Hv). cbn [andb]. f_equal.
+      rewrite Exw. f_equal.
+      transitivity (f32_make (f32_sign w) (f32_expo w) (f32_mant w)); [|symmetry; exact Ew]. unfold f32_make.
+      destruct (N.eqb_spec (f32_sign w) 1) as [S1|S0]; [rewrite S1|replace (f32_sign w) with 0 by lia]; lia.
+  Qed.
+
+  Theorem float_hex_elem k x : kind_class k = CFloat -> x < 2 ^ kind_bits k ->
+    let t := write_float_hex_noprefix (widen k x) in
+    read_elem parse_dec k MHex t = Some (canon_elem k x) /\ run_ok t.
+  Proof.
+    intros Hk Hx. destruct k; try discriminate; cbn [widen kind_bits] in *.
+    - apply f16_hex_elem; exact Hx.
+    - apply f32_hex_elem; exact Hx.
+    - apply f64_hex_elem; exact Hx.
+  Qed.
+End FloatHex32.
+
+(* ------------------------------------------------------------------ *)
+(** * Float elements, decimal spelling (strconv kept abstract) *)
+
+Section FloatDec.
+  Variables (fmt_g : N -> bytes) (parse_dec : N -> bytes -> option N).
+
+  Lemma special_text_cases b t : write_special b = Some t -> t = t_nan \/ t = t_snan \/ t = t_inf \/ t = t_ninf.
+  Proof.
+    unfold write_special. destruct (f64_is_nan b).
+    - destruct (f64_quiet_bit b); intros [= <-]; tauto.
+    - destruct (f64_is_inf b); [|discriminate]. destruct (f64_sign b =? 1); intros [= <-]; tauto.
+  Qed.
+
+  (* nan / snan / inf / -inf elements, in either float mode *)
+  Lemma special_elem k m x t : kind_class k = CFloat -> x < 2 ^ kind_bits k -> m = MDec \/ m = MHex ->
+    write_special (widen k x) = Some t ->
+    read_elem parse_dec k m t = Some (canon_elem k x) /\ run_ok t.
+  Proof.
+    intros Hk Hx Hm Hsp.
+    destruct (float_hex_elem parse_dec k x Hk Hx) as [Hread Hrun].
+    assert (Et : write_float_hex_noprefix (widen k x) = t) by (unfold write_float_hex_noprefix; rewrite Hsp; reflexivity).
+    rewrite Et in Hread, Hrun. split; [|exact Hrun].
+    destruct (read_specials parse_dec k m Hk Hm) as (A0 & A1 & A2 & A3).
+    destruct (read_specials parse_dec k MHex Hk (or_intror eq_refl)) as (B0 & B1 & B2 & B3).
+    destruct (special_text_cases _ _ Hsp) as [-> | [-> | [-> | ->]]]; congruence.
+  Qed.
+
+  Lemma finite_not_nan k x : kind_class k = CFloat -> x < 2 ^ kind_bits k ->
+    write_special (widen k x) = None -> canon_elem k x = x.
+  Proof.
+    intros Hk Hx Hsp.
+    assert (Hn : f64_is_nan (widen k x) = false).
+    { unfold write_special in Hsp. destruct (f64_is_nan (widen k x)); [discriminate|reflexivity]. }
+    destruct k; try discriminate; cbn [widen kind_bits canon_elem] in *.
+    - unfold bf16_widen in Hn. rewrite widen_is_nan in Hn.
+      + unfold bf16_is_nan. rewrite Hn. reflexivity.
+      + change (2 ^ 32) with (65536 * 65536). change (2 ^ 16) with 65536 in Hx. lia.
+    - rewrite widen_is_nan in Hn by exact Hx. rewrite Hn. reflexivity.
+    - rewrite Hn. reflexivity.
+  Qed.
+
+  Lemma dec_elem k x : kind_class k = CFloat -> x < 2 ^ kind_bits k ->
+    write_special (widen k x) = None ->
+    let g := fmt_g (widen k x) in
+    strconv_sample_ok k x g (parse_dec (float_parse_bits k) (dec_text g)) = true ->
+    read_elem parse_dec k MDec g = Some (canon_elem k x) /\ run_ok g.
+  Proof.
+    intros Hk Hx Hsp g Hok. rewrite (finite_not_nan k x Hk Hx Hsp).
+    unfold strconv_sample_ok in Hok.
+    repeat (apply andb_true_iff in Hok as [Hok ?]).
+    rename H into Hparsed, H0 into Hnsp, H1 into Hbody, H2 into Hrun, H3 into Hscan.
+    destruct (scan_float false false g) as [n|] eqn:Escan; [|discriminate].
+    repeat (apply andb_true_iff in Hscan as [Hscan ?]).
+    rename H into Hzero, H0 into Hnous. apply Bool.eqb_prop in Hscan, Hzero.
+    split.
+    - unfold read_elem. rewrite Hk. unfold read_float_elem.
+      cbn [existsb] in Hnsp. apply negb_true_iff in Hnsp. repeat (apply orb_false_iff in Hnsp as [? Hnsp]).
+      rewrite H, H0, H1, H2. rewrite Escan. rewrite Hscan, Hzero.
+      destruct (parse_dec (float_parse_bits k) (dec_text g)) as [v|]; [|discriminate].
+      cbn [option_eqb] in Hparsed. apply N.eqb_eq in Hparsed. subst v.
+      unfold finish_float.
+      destruct k; try discriminate; cbn [kind_bits] in *.
+      + change (2 ^ (16 - 1)) with 32768 in *. change (2 ^ 15) with 32768. change (2 ^ 16) with 65536 in Hx. unfold p2_31.
+        destruct (N.eqb_spec (x mod 32768 * 65536) 0), (N.eqb_spec (x mod 32768) 0); cbn [andb negb]; try lia;
+          destruct (N.leb_spec 32768 x); f_equal; dlia.
+      + change (2 ^ (32 - 1)) with 2147483648 in *. change (2 ^ 32) with 4294967296 in Hx. unfold p2_31.
+        destruct (N.eqb_spec (x mod 2147483648) 0); cbn [andb negb];
+          destruct (N.leb_spec 2147483648 x); f_equal; dlia.
+      + change (2 ^ (64 - 1)) with 9223372036854775808 in *. change (2 ^ 64) with 18446744073709551616 in Hx. unfold p2_63.
+        destruct (N.eqb_spec (x mod 9223372036854775808) 0); cbn [andb negb];
+          destruct (N.leb_spec 9223372036854775808 x); f_equal; dlia.
+    - split; [|exact Hrun]. intro E. apply negb_true_iff in Hbody. rewrite E in Hbody. discriminate.
+  Qed.
+End FloatDec.
+
+(* ------------------------------------------------------------------ *)
+(** * Float arrays *)
+
+Definition float_kinds : list kind := [KF16; KF32; KF64].
+
+Definition float_pair_ok (k : kind) (f : N) (m : amode) : bool :=
+  (f <? N.of_nat (length (headers_of k))) && (f <? N.of_nat (length (verbs_of k))) &&
+  let h := nth (N.to_nat f) (headers_of k) [] in
+  match split_header h, find_header h with
+  | Some (h', []), Some (k', m') =>
+      bytes_eqb h' h && kind_eqb k' k && match m, m' with MDec, MDec | MHex, MHex => true | _, _ => false end
+  | _, _ => false
+  end.
+
+Definition directive_eqb (a b : directive) : bool :=
+  match a, b with
+  | DEmpty, DEmpty | DOther, DOther => true
+  | DVerb z w c, DVerb z' w' c' => Bool.eqb z z' && (w =? w') && (c =? c')
+  | _, _ => false
+  end.
+
+Lemma directive_eqb_eq a b : directive_eqb a b = true -> a = b.
+Proof.
+  destruct a as [|z w c|], b as [|z' w' c'|]; cbn; try discriminate; try reflexivity.
+  intro H. apply andb_true_iff in H as [H Hc]. apply andb_true_iff in H as [Hz Hw].
+  apply Bool.eqb_prop in Hz. apply N.eqb_eq in Hw, Hc. subst. reflexivity.
+Qed.
+
+Lemma float_pairs_sweep :
+  forallb (fun k => float_pair_ok k cfg_CTEEncodingFormatHexadecimal MHex &&
+                    float_pair_ok k cfg_CTEEncodingFormatDecimal MDec &&
+                    directive_eqb (parse_directive (nth (N.to_nat cfg_CTEEncodingFormatDecimal) (verbs_of k) []))
+                                  (DVerb false 0 118)) float_kinds = true.
+Proof. vm_compute. reflexivity. Qed.
+
+Lemma float_kind_in k : kind_class k = CFloat -> In k float_kinds.
+Proof. destruct k; cbn; intro H; try discriminate; tauto. Qed.
+
+Lemma float_pair_facts k f m : float_pair_ok k f m = true ->
+  f < N.of_nat (length (headers_of k)) /\ f < N.of_nat (length (verbs_of k)) /\
+  let h := nth (N.to_nat f) (headers_of k) [] in
+  split_header h = Some (h, []) /\ find_header h = Some (k, m).
+Proof.
+  unfold float_pair_ok. intro H. apply andb_true_iff in H as [Hlen H]. apply andb_true_iff in Hlen as [H1 H2].
+  apply N.ltb_lt in H1, H2. cbv zeta in *. set (h := nth (N.to_nat f) (headers_of k) []) in *.
+  destruct (split_header h) as [[h' [|? ?]]|]; try discriminate.
+  destruct (find_header h) as [[k' m']|]; try discriminate.
+  apply andb_true_iff in H as [H Hm]. apply andb_true_iff in H as [Hh Hk].
+  apply bytes_eqb_eq in Hh. apply kind_eqb_eq in Hk. subst h' k'.
+  assert (m' = m) by (destruct m, m'; try discriminate; reflexivity). subst m'. tauto.
+Qed.
+
+Theorem float_hex_array_roundtrip fmt_g parse_dec k xs :
+  kind_class k = CFloat -> elems_wf k xs ->
+  roundtrip fmt_g parse_dec k cfg_CTEEncodingFormatHexadecimal xs = Ok (k, map (canon_elem k) xs).
+Proof.
+  intros Hk Hwf.
+  pose proof float_pairs_sweep as Hsweep. rewrite forallb_forall in Hsweep.
+  specialize (Hsweep k (float_kind_in k Hk)).
+  apply andb_true_iff in Hsweep as [Hsweep _]. apply andb_true_iff in Hsweep as [Hhex _].
+  destruct (float_pair_facts _ _ _ Hhex) as (H1 & H2 & H3 & H4).
+  apply (array_roundtrip_gen fmt_g parse_dec k _ MHex xs (fun x => write_float_hex_noprefix (widen k x))); try assumption.
+  intros x Hx. unfold elems_wf in Hwf. rewrite Forall_forall in Hwf. specialize (Hwf x Hx).
+  destruct (float_hex_elem parse_dec k x Hk Hwf) as [Hread Hrun].
+  split; [|split; assumption].
+  unfold print_elem. rewrite Hk. rewrite N.eqb_refl. reflexivity.
+Qed.
+
+Theorem float_dec_array_roundtrip fmt_g parse_dec k xs :
+  kind_class k = CFloat -> elems_wf k xs -> strconv_ok_on fmt_g parse_dec k xs ->
+  roundtrip fmt_g parse_dec k cfg_CTEEncodingFormatDecimal xs = Ok (k, map (canon_elem k) xs).
+Proof.
+  intros Hk Hwf Hstr.
+  pose proof float_pairs_sweep as Hsweep. rewrite forallb_forall in Hsweep.
+  specialize (Hsweep k (float_kind_in k Hk)).
+  apply andb_true_iff in Hsweep as [Hsweep Hverb]. apply andb_true_iff in Hsweep as [_ Hdec].
+  destruct (float_pair_facts _ _ _ Hdec) as (H1 & H2 & H3 & H4).
+  set (pe := fun x => match write_special (widen k x) with Some t => t | None => fmt_g (widen k x) end).
+  apply (array_roundtrip_gen fmt_g parse_dec k _ MDec xs pe); try assumption.
+  intros x Hx. unfold elems_wf in Hwf. rewrite Forall_forall in Hwf. specialize (Hwf x Hx).
+  unfold strconv_ok_on in Hstr. rewrite Forall_forall in Hstr. specialize (Hstr x Hx).
+  assert (Hprint : print_elem fmt_g k cfg_CTEEncodingFormatDecimal x = Some (pe x)).
+  { unfold print_elem. rewrite Hk. change (cfg_CTEEncodingFormatDecimal =? cfg_CTEEncodingFormatHexadecimal) with false.
+    cbv iota. rewrite (directive_eqb_eq _ _ Hverb).
+    unfold write_float_using_format, pe. destruct (write_special (widen k x)); reflexivity. }
+  split; [exact Hprint|]. unfold pe. destruct (write_special (widen k x)) as [t|] eqn:Esp.
+  - apply (special_elem fmt_g parse_dec k MDec x t Hk Hwf (or_introl eq_refl) Esp).
+  - apply (dec_elem fmt_g parse_dec k x Hk Hwf Esp). apply Hstr. unfold float_finite. rewrite Hk, Esp. reflexivity.
+Qed.
+
+(* ------------------------------------------------------------------ *)
+(** * All supported pairs; the unsupported ones *)
+
+Theorem array_format_roundtrip fmt_g parse_dec k f xs :
+  supported_fmt k f = true -> elems_wf k xs -> strconv_ok_on fmt_g parse_dec k xs ->
+  roundtrip fmt_g parse_dec k f xs = Ok (k, map (canon_elem k) xs).
+Proof.
+  intros Hf Hwf Hstr. destruct (kind_class k) eqn:Hk.
+  - apply int_array_roundtrip; [congruence|assumption|assumption].
+  - apply int_array_roundtrip; [congruence|assumption|assumption].
+  - unfold supported_fmt in Hf. rewrite Hk in Hf. apply orb_true_iff in Hf as [Hf|Hf]; apply N.eqb_eq in Hf; subst f.
+    + apply float_dec_array_roundtrip; assumption.
+    + apply float_hex_array_roundtrip; assumption.
+Qed.
+
+(* the same without any assumption on strconv, for everything but decimal float arrays *)
+Theorem array_format_roundtrip_concrete fmt_g parse_dec k f xs :
+  supported_fmt k f = true -> elems_wf k xs ->
+  (kind_class k = CFloat -> f <> cfg_CTEEncodingFormatDecimal) ->
+  roundtrip fmt_g parse_dec k f xs = Ok (k, map (canon_elem k) xs).
+Proof.
+  intros Hf Hwf Hnd. destruct (kind_class k) eqn:Hk.
+  - apply int_array_roundtrip; [congruence|assumption|assumption].
+  - apply int_array_roundtrip; [congruence|assumption|assumption].
+  - unfold supported_fmt in Hf. rewrite Hk in Hf. apply orb_true_iff in Hf as [Hf|Hf]; apply N.eqb_eq in Hf; subst f.
+    + exfalso. apply (Hnd eq_refl). reflexivity.
+    + apply float_hex_array_roundtrip; assumption.
+Qed.
+
+(* array data as bytes *)
+Lemma elems_of_bytes_aux_wf w bits : 256 ^ N.of_nat w = 2 ^ bits ->
+  forall fuel data, bytes_wf data -> Forall (fun x => x < 2 ^ bits) (elems_of_bytes_aux fuel w data).
+Proof.
+  intros Hw. induction fuel as [|f IH]; intros data Hd; cbn [elems_of_bytes_aux]; [constructor|].
+  destruct data as [|c r] eqn:E; [constructor|]. rewrite <- E in *.
+  assert (Hsplit : bytes_wf (firstn w data) /\ bytes_wf (skipn w data)).
+  { unfold bytes_wf in *. apply Forall_app. rewrite firstn_skipn. exact Hd. }
+  destruct Hsplit as [Hf Hsk]. constructor.
+  - pose proof (le_decode_lt _ Hf) as Hlt.
+    apply N.lt_le_trans with (256 ^ N.of_nat (length (firstn w data))); [exact Hlt|].
+    rewrite <- Hw. apply N.pow_le_mono_r; [discriminate|]. rewrite firstn_length. lia.
+  - apply IH. exact Hsk.
+Qed.
+
+Lemma elems_of_bytes_wf k data : bytes_wf data -> elems_wf k (elems_of_bytes k data).
+Proof.
+  intro Hd. unfold elems_wf, elems_of_bytes. apply elems_of_bytes_aux_wf; [|exact Hd].
+  destruct k; reflexivity.
+Qed.
+
+Theorem array_bytes_roundtrip fmt_g parse_dec k f data :
+  supported_fmt k f = true -> bytes_wf data ->
+  strconv_ok_on fmt_g parse_dec k (elems_of_bytes k data) ->
+  outcome_bind (print_array fmt_g k f data) (read_array parse_dec)
+  = Ok (k, bytes_of_elems k (map (canon_elem k) (elems_of_bytes k data))).
+Proof.
+  intros Hf Hd Hstr.
+  pose proof (array_format_roundtrip fmt_g parse_dec k f _ Hf (elems_of_bytes_wf k data Hd) Hstr) as H.
+  unfold roundtrip in H. unfold print_array, read_array.
+  destruct (print_elems fmt_g k f (elems_of_bytes k data)) as [t| | |]; cbn [outcome_bind] in *; try discriminate.
+  rewrite H. reflexivity.
+Qed.
+
+(* which of the property's pairs are not covered, by class *)
+Lemma unsupported_pairs k f : In f all_formats -> supported_fmt k f = false ->
+  f = cfg_CTEEncodingFormatDecimal + cfg_CTEEncodingFormatFlagZeroFilled \/
+  (kind_class k = CFloat /\
+   (f = cfg_CTEEncodingFormatBinary \/ f = cfg_CTEEncodingFormatBinaryZeroFilled \/
+    f = cfg_CTEEncodingFormatOctal \/ f = cfg_CTEEncodingFormatOctalZeroFilled \/
+    f = cfg_CTEEncodingFormatHexadecimalZeroFilled)).
+Proof.
+  intros Hin Hs. cbn [all_formats In] in Hin.
+  destruct Hin as [<-|[<-|[<-|[<-|[<-|[<-|[<-|[<-|[]]]]]]]]]; destruct k; cbn in Hs; try discriminate; tauto.
+Qed.
+
+(* The whole property, as stated: every one of the eight settings, every kind. *)
+Definition C25_full_statement : Prop :=
+  forall fmt_g parse_dec k f xs,
+    In f all_formats -> elems_wf k xs -> strconv_ok_on fmt_g parse_dec k xs ->
+    roundtrip fmt_g parse_dec k f xs = Ok (k, map (canon_elem k) xs).
+
+Definition no_g : N -> bytes := fun _ => [].
+Definition no_p : N -> bytes -> option N := fun _ _ => None.
+
+(* Decimal|ZeroFilled indexes an empty slot of every table: no header, "%!(EXTRA ...)" elements *)
+Lemma decimal_zero_filled_refuted :
+  exists k f xs, In f all_formats /\ elems_wf k xs /\ strconv_ok_on no_g no_p k xs /\
+                 roundtrip no_g no_p k f xs <> Ok (k, map (canon_elem k) xs).
+Proof.
+  exists KU8, (cfg_CTEEncodingFormatDecimal + cfg_CTEEncodingFormatFlagZeroFilled), [7].
+  split; [cbn; tauto|]. split; [repeat constructor|]. split; [repeat constructor; discriminate|].
+  vm_compute. discriminate.
+Qed.
+
+(* "@f64b[" is not a token of the CTE lexer (nor is any other float binary header) *)
+Lemma float_binary_refuted :
+  exists k f xs, In f all_formats /\ elems_wf k xs /\ strconv_ok_on no_g no_p k xs /\
+                 roundtrip no_g no_p k f xs <> Ok (k, map (canon_elem k) xs).
+Proof.
+  exists KF64, cfg_CTEEncodingFormatBinary, [].
+  split; [cbn; tauto|]. split; [constructor|]. split; [constructor|]. vm_compute. discriminate.
+Qed.
+
+Lemma float_octal_refuted :
+  exists k f xs, In f all_formats /\ elems_wf k xs /\ strconv_ok_on no_g no_p k xs /\
+                 roundtrip no_g no_p k f xs <> Ok (k, map (canon_elem k) xs).
+Proof.
+  exists KF32, cfg_CTEEncodingFormatOctalZeroFilled, [].
+  split; [cbn; tauto|]. split; [constructor|]. split; [constructor|]. vm_compute. discriminate.
+Qed.
+
+(* zero-filled hexadecimal floats are written with %x: "0x1p+00" inside an x-mode array *)
+Definition one_g : N -> bytes := fun _ => [49].
+Definition one_p : N -> bytes -> option N := fun _ _ => Some 0x3ff0000000000000.
+
+Lemma float_hex_zero_filled_refuted :
+  exists k f xs, In f all_formats /\ elems_wf k xs /\ strconv_ok_on one_g one_p k xs /\
+                 roundtrip one_g one_p k f xs <> Ok (k, map (canon_elem k) xs).
+Proof.
+  exists KF64, cfg_CTEEncodingFormatHexadecimalZeroFilled, [0x3ff0000000000000].
+  split; [cbn; tauto|]. split; [repeat constructor|]. split.
+  - repeat constructor; try (intros _; vm_compute; reflexivity).
+  - vm_compute. discriminate.
+Qed.
+
+Theorem full_statement_refuted : ~ C25_full_statement.
+Proof.
+  intro H. destruct float_binary_refuted as (k & f & xs & Hin & Hwf & Hstr & Hne).
+  apply Hne. apply H; assumption.
+Qed.
+
+(* Binary and octal float settings never produce readable text, whatever the elements. *)
+Definition float_bad_header (k : kind) (f : N) : bool :=
+  let h := nth (N.to_nat f) (headers_of k) [] in
+  match split_header h, find_header h with
+  | Some (h', []), None => bytes_eqb h' h
+  | _, _ => false
+  end.
+
+Lemma float_bad_headers_sweep :
+  forallb (fun k => forallb (float_bad_header k)
+                      [cfg_CTEEncodingFormatBinary; cfg_CTEEncodingFormatBinaryZeroFilled;
+                       cfg_CTEEncodingFormatOctal; cfg_CTEEncodingFormatOctalZeroFilled]) float_kinds = true.
+Proof. vm_compute. reflexivity. Qed.
+
+Theorem float_binary_octal_never_read fmt_g parse_dec k f xs r :
+  kind_class k = CFloat ->
+  In f [cfg_CTEEncodingFormatBinary; cfg_CTEEncodingFormatBinaryZeroFilled;
+        cfg_CTEEncodingFormatOctal; cfg_CTEEncodingFormatOctalZeroFilled] ->
+  roundtrip fmt_g parse_dec k f xs <> Ok r.
+Proof.
+  intros Hk Hf. pose proof float_bad_headers_sweep as Hs. rewrite forallb_forall in Hs.
+  specialize (Hs k (float_kind_in k Hk)). rewrite forallb_forall in Hs. specialize (Hs f Hf).
+  unfold float_bad_header in Hs. cbv zeta in Hs.
+  set (h := nth (N.to_nat f) (headers_of k) []) in *.
+  destruct (split_header h) as [[h' [|? ?]]|] eqn:Es; try discriminate.
+  destruct (find_header h) as [?|] eqn:Ef; try discriminate.
+  apply bytes_eqb_eq in Hs. subst h'.
+  unfold roundtrip, print_elems.
+  destruct ((N.of_nat (length (headers_of k)) <=? f) || (N.of_nat (length (verbs_of k)) <=? f)); [discriminate|].
+  destruct (map_opt (print_elem fmt_g k f) xs) as [ts|]; [|discriminate].
+  cbn [outcome_bind]. fold h. unfold read_elems, lex_header.
+  rewrite (split_header_app h Es). rewrite Ef. discriminate.
+Qed.
+
+(* ------------------------------------------------------------------ *)
+(** * Non-vacuity *)
+
+Import String.StringSyntax.
+
+(* real strconv output for 1.5 and -0.1 (float64), looked up from tables *)
+Definition ex_g : N -> bytes :=
+  lookup_g [(0x3ff8000000000000, s2b "1.5"); (0xbfb999999999999a, s2b "-0.1")]%string.
+Definition ex_p : N -> bytes -> option N :=
+  lookup_p [(64, s2b "1.5", Some 0x3ff8000000000000); (64, s2b "0.1", Some 0x3fb999999999999a)]%string.
+Definition ex_xs : list N := [0x3ff8000000000000; 0xbfb999999999999a; 0x7ff8000000000001; 0xfff0000000000000].
+
+Example ex_strconv_ok : strconv_ok_on ex_g ex_p KF64 ex_xs.
+Proof.
+  repeat constructor; try (intro H; first [vm_compute; reflexivity | vm_compute in H; discriminate H]).
+Qed.
+
+Example ex_dec_text :
+  print_elems ex_g KF64 cfg_CTEEncodingFormatDecimal ex_xs = Ok (s2b "@f64[1.5 -0.1 nan -inf]")%string.
+Proof. vm_compute. reflexivity. Qed.
+
+Example ex_hex_text :
+  print_elems ex_g KF64 cfg_CTEEncodingFormatHexadecimal ex_xs = Ok (s2b "@f64x[1.8 -1.999999999999ap-04 nan -inf]")%string.
+Proof. vm_compute. reflexivity. Qed.
+
+Example ex_int_text :
+  print_elems no_g KI16 cfg_CTEEncodingFormatHexadecimalZeroFilled [0; 1; 0x7fff; 0x8000; 0xffff]
+  = Ok (s2b "@i16x[0000 0001 7fff -8000 -001]")%string.
+Proof. vm_compute. reflexivity. Qed.
+
+Example ex_roundtrip :
+  roundtrip ex_g ex_p KF64 cfg_CTEEncodingFormatDecimal ex_xs
+  = Ok (KF64, [0x3ff8000000000000; 0xbfb999999999999a; 0x7ffc000000000000; 0xfff0000000000000]).
+Proof. vm_compute. reflexivity. Qed.
